@@ -95,7 +95,7 @@ def catalogue():
     std("negative", lambda z: -z, [0.0, 1.5], C)
     for r in (2, 3, -1, -2, 0, 1, 4, 5, 6, 8, -3, 11):
         add("pow_int(%d)" % r, [("x**%d" % r, lambda x, r=r: x ** r), ("algopy.pow", lambda x, r=r: algopy.pow(x, r))],
-            lambda z, r=r: z ** r, [0.5, -2.0, 3.0], C)
+            lambda z, r=r: z ** r, [0.5, -2.0, 3.0] + ([0.0] if r >= 0 else []), C)
     for r in (0.5, -1.5, 2.5, numpy.float64(1.25)):
         add("pow_real(%s)" % r, [("x**%s" % r, lambda x, r=r: x ** r)], lambda z, r=r: z ** float(r), [0.5, 2.0, 4.0], C)
     for r in (2, 0.5, numpy.float64(3.0)):
